@@ -146,3 +146,55 @@ Fixpoint clean_run (ops : list op) (w : ws) : bool :=
   | [] => true
   | o :: r => clean_op w o && clean_run r (fst (step w o))
   end.
+
+(* ====================================================================================================== *)
+(* Two workspaces (world) — specification vocabulary                                                        *)
+(* ====================================================================================================== *)
+Definition WRep (W : world) (pa pb : list key) : Prop :=
+  Rep (wmem (wa W)) (wfile (wa W)) pa /\ Rep (wmem (wb W)) (wfile (wb W)) pb.
+
+(* a cross-workspace copy is "fresh" when none of the copy's keys has a (stale) flat node in the target file and the
+   identifiers it draws are distinct from one another and from every identifier in use in the target *)
+Definition wfresh_op (W : world) (o : wop) : bool :=
+  match o with
+  | On i o' => fresh_op (wsel i W) o'
+  | CopyX i e q ids =>
+      let src := wsel i W in let tgt := wsel (negb i) W in
+      nodupN ids
+      && forallb (fun j => negb (memN j (map snd (keys_of (wmem tgt))))) ids
+      && forallb (fun j => negb (memN j (all_pg_ids (wmem tgt)))) ids
+      && match find e (wmem src) with
+         | Some te =>
+             match copy_x (map snd (keys_of (wmem tgt))) (all_pg_ids (wmem tgt)) te ids with
+             | Some (t', _, _, _) =>
+                 forallb (fun k => match fget k (flat (wfile tgt)) with Some _ => false | None => true end) (keys_of t')
+             | None => true
+             end
+         | None => true
+         end
+  end.
+Fixpoint wfresh_run (ops : list wop) (W : world) : bool :=
+  match ops with [] => true | o :: r => wfresh_op W o && wfresh_run r (fst (wstep W o)) end.
+
+Definition wclean_op (W : world) (o : wop) : bool :=
+  match o with On i o' => clean_op (wsel i W) o' | CopyX _ _ _ _ => true end.
+Fixpoint wclean_run (ops : list wop) (W : world) : bool :=
+  match ops with [] => true | o :: r => wclean_op W o && wclean_run r (fst (wstep W o)) end.
+
+(* identifier-free shape of a subtree: kind, attributes, property groups as (name, positions of the members among the
+   children), children — "a copy equals its source" is equality of shapes *)
+Inductive shape := SNode (k : kind) (name : N) (del : bool) (arr : N) (pgs : list (N * list (option nat))) (kids : list shape).
+Fixpoint pos_of (x : key) (l : list key) : option nat :=
+  match l with [] => None | h :: r => if key_eqb x h then Some 0 else option_map S (pos_of x r) end.
+Fixpoint erase (t : tree) : shape :=
+  let 'Node k a l := t in
+  SNode (fst k) (aname a) (adel a) (aarr a)
+        (map (fun g => (pg_name g, map (fun m => pos_of m (map tkey l)) (pg_members g))) (apgs a))
+        (map erase l).
+
+(* C09 sharpening: the only nodes whose scalar attributes or array an operation may rewrite *)
+Definition content_targets (w : ws) (o : op) : list key :=
+  match o with
+  | SetName e _ | SetDel e _ | SetArr e _ => [e]
+  | _ => []
+  end.
